@@ -69,6 +69,14 @@ def gen_pm(rng, hostile=True):
         kind = 'equal'
     ff = dict(zip(MODES, flows))
     ei = {s: {m: 10 ** rng.uniform(-2, 1.6) for m in MODES} for s in ('nox', 'hc', 'co')}
+    # keep the idle->approach log-log slope of HC/CO within +-12 (real engines: -1 .. -4):
+    # steeper data extrapolate to overflow at very small fuel flows in any implementation
+    import math as _m
+    den = abs(_m.log10(ff['approach'] / ff['idle']))
+    for sp in ('hc', 'co'):
+        num = _m.log10(ei[sp]['approach'] / ei[sp]['idle'])
+        if den > 0 and abs(num) > 12 * den:
+            ei[sp]['approach'] = ei[sp]['idle'] * 10 ** (_m.copysign(12 * den, num))
     lto = LTOPerformance(source='h', ICAO_UID='H1', rated_thrust=120000.0,
                          thrust_pct=tmv({'idle': 7, 'approach': 30, 'climb': 85, 'takeoff': 100}),
                          fuel_flow=tmv(ff), EI_NOx=tmv(ei['nox']), EI_HC=tmv(ei['hc']),
